@@ -5,8 +5,6 @@ this module manage node (start server, add peer, ...)
 .. seealso:: Examples in :file:`examples/node`
 """
 
-from copy import copy
-
 from circuits import BaseComponent, Timer, handler
 from circuits.net.events import connect
 
@@ -229,9 +227,24 @@ class Node(BaseComponent):
         if node is None:
             # not a connection of this node (every Node sees every remote event)
             return None
-        # (a copy goes over the wire: the channels the event is to be fired on
-        # at the peer are not those of the local event object, whose own
-        # notifications must still find their listeners)
-        remote_event = copy(remote_event)
-        remote_event.channels = (channel,) if channel is not None else event.channels
-        return node.send(remote_event)
+        channels = (channel,) if channel is not None else event.channels
+
+        def forward():
+            # the channels the event is to be fired on at the peer go into
+            # the packet, not onto the local event object for good: its own
+            # notifications must still find their listeners (and the result
+            # and error flag of the call are recorded on this very object)
+            own = remote_event.channels
+            remote_event.channels = channels
+            try:
+                sent = node.send(remote_event)
+                try:
+                    first = next(sent)  # (writes the packet)
+                except StopIteration:
+                    return
+            finally:
+                remote_event.channels = own
+            yield first
+            yield from sent
+
+        return forward()
